@@ -558,6 +558,9 @@ pub fn shape_reuse(fail: &mut dyn FnMut(&str, String, String)) -> u64 {
         ("z-x", Tree::z() - Tree::x(), |x, _, z| z - x),
         ("const", Tree::constant(1.5), |_, _, _| 1.5),
         ("min(x,y)", Tree::x().min(Tree::y()), |x, y, _| x.min(y)),
+        // the same variable set as min(x,y) and the same variable count as z-x, met in another order: the variable-to-index maps differ
+        ("y-3x", Tree::y() - Tree::x() * 3.0, |x, y, _| y - x * 3.0),
+        ("x-2y", Tree::x() - Tree::y() * 2.0, |x, y, _| x - y * 2.0),
     ];
     let lens = [10usize, 5, 0, 3, 1];
     let vs: Vec<VmShape> = shapes.iter().map(|(_, t, _)| VmShape::from(t.clone())).collect();
@@ -571,7 +574,24 @@ pub fn shape_reuse(fail: &mut dyn FnMut(&str, String, String)) -> u64 {
                         let mut bad: Vec<String> = vec![];
                         let mut fe = VmShape::new_float_slice_eval();
                         let mut ge = VmShape::new_grad_slice_eval();
+                        let mut pe = VmShape::new_point_eval();
+                        let mut ie = VmShape::new_interval_eval();
                         for &(k, l) in &[(i, li), (j, lj)] {
+                            // the single-point and the interval wrapper, reused as well (one evaluation per step, at a point that depends on l)
+                            {
+                                let (px, py, pz) = (0.5 + l as f32, -1.25 * (l as f32 + 1.0), 3.0 - l as f32);
+                                let want = (shapes[k].2)(px, py, pz);
+                                let t = vs[k].ez_point_tape();
+                                match pe.eval(&t, px, py, pz) {
+                                    Ok((v, _)) => { if v.to_bits() != want.to_bits() { bad.push(format!("point evaluation at ({px},{py},{pz}) = {v} != {want}")); } }
+                                    Err(e) => bad.push(format!("point error {e:?}")),
+                                }
+                                let t = vs[k].ez_interval_tape();
+                                match ie.eval(&t, px, py, pz) {
+                                    Ok((iv, _)) => { if !(iv.lower() <= want && want <= iv.upper()) { bad.push(format!("interval evaluation on the point box ({px},{py},{pz}) = {iv:?} does not contain {want}")); } }
+                                    Err(e) => bad.push(format!("interval error {e:?}")),
+                                }
+                            }
                             let xs: Vec<f32> = (0..l).map(|q| 0.5 + q as f32).collect();
                             let ys: Vec<f32> = (0..l).map(|q| -1.25 * q as f32).collect();
                             let zs: Vec<f32> = (0..l).map(|q| 3.0 - q as f32).collect();
@@ -603,7 +623,7 @@ pub fn shape_reuse(fail: &mut dyn FnMut(&str, String, String)) -> u64 {
                         }
                         bad
                     }));
-                    n += 4;
+                    n += 8;
                     match res {
                         Ok(bad) => { for b in bad { fail("shape-reuse", sig.clone(), b); } }
                         Err(p) => {
